@@ -91,6 +91,10 @@ func diffClass(got, want []byte) (class string, at int) {
 type wstep struct {
 	N     int  `json:"n"`
 	Flush bool `json:"flush,omitempty"`
+	// Deadline: before this Write the writer pushes a deadline an hour ahead
+	// (the idle-timeout idiom of net.Conn users): "write" SetWriteDeadline,
+	// "both" SetDeadline.  It never passes; the bytes must not care.
+	Deadline string `json:"deadline,omitempty"`
 }
 
 type dirSpec struct {
@@ -190,11 +194,16 @@ func genSteps(r *rand.Rand, n, block int, class string) []wstep {
 	eb := effBlock(block)
 	var st []wstep
 	rem := n
+	deadlines := r.Intn(4) == 0 // this writer refreshes a deadline before its writes
 	add := func(k int, fl bool) {
 		if k > rem {
 			k = rem
 		}
-		st = append(st, wstep{N: k, Flush: fl})
+		ws := wstep{N: k, Flush: fl}
+		if deadlines {
+			ws.Deadline = []string{"", "write", "both", ""}[r.Intn(4)]
+		}
+		st = append(st, ws)
 		rem -= k
 	}
 	if n == 0 {
@@ -526,6 +535,12 @@ var errStop = errors.New("harness: stop")
 func writeAll(conn *ibb.Conn, data []byte, steps []wstep, flushed func(off int) error) error {
 	off := 0
 	for i, st := range steps {
+		switch st.Deadline {
+		case "write":
+			conn.SetWriteDeadline(time.Now().Add(time.Hour))
+		case "both":
+			conn.SetDeadline(time.Now().Add(time.Hour))
+		}
 		n, err := conn.Write(data[off : off+st.N])
 		if err != nil {
 			return fmt.Errorf("Write #%d of %d bytes at offset %d: n=%d err=%v", i, st.N, off, n, err)
